@@ -216,6 +216,38 @@ func (d *Dispatcher) run(it provider.AlertIterator) {
 
 	// Start multiple alert ingestion goroutines
 	alertCh := it.Next()
+	// Updates of one alert must be applied in the order they were published,
+	// so every fingerprint is always handled by the same worker.
+	shards := make([]chan *provider.Alert, d.concurrency)
+	for i := range shards {
+		shards[i] = make(chan *provider.Alert, 64)
+	}
+	d.finished.Go(func() {
+		defer func() {
+			for _, c := range shards {
+				close(c)
+			}
+		}()
+		for {
+			select {
+			case a, ok := <-alertCh:
+				if !ok {
+					return
+				}
+				idx := 0
+				if a != nil && a.Data != nil {
+					idx = int(uint64(a.Data.Fingerprint()) % uint64(len(shards)))
+				}
+				select {
+				case shards[idx] <- a:
+				case <-d.ctx.Done():
+					return
+				}
+			case <-d.ctx.Done():
+				return
+			}
+		}
+	})
 	for i := 0; i < d.concurrency; i++ {
 		d.finished.Add(1)
 		go func(workerID int) {
@@ -224,7 +256,7 @@ func (d *Dispatcher) run(it provider.AlertIterator) {
 
 			for {
 				select {
-				case alert, ok := <-alertCh:
+				case alert, ok := <-shards[workerID]:
 					if !ok {
 						// Iterator exhausted for some reason.
 						if err := it.Err(); err != nil {
